@@ -1,15 +1,39 @@
-// c13corr: balance and stickiness of the real strategies. (probe version)
+// c13corr: balance of range / round-robin plans and balance + stickiness of sticky plans over honest rebalance chains,
+// checked directly on the real strategies (monitor) and written as Coq cases for SV.C13.Corr.
 package main
 
 import (
+	"encoding/json"
 	"flag"
 	"fmt"
 	"math/rand"
+	"os"
+	"sort"
 
 	"github.com/Shopify/sarama"
 
 	bg "verifharness/internal/balgen"
+	cf "verifharness/internal/coqfmt"
 )
+
+const imports = "From SV Require Import C08.Common C08.Range C08.RoundRobin C08.Sticky C08.Valid C08.Corr C13.Model C13.Corr.\nOpen Scope string_scope."
+
+type caseJSON struct {
+	Strategy string         `json:"strategy"`
+	In       *bg.Input      `json:"in,omitempty"`
+	Oracle   *bg.Oracle     `json:"oracle,omitempty"`
+	Plan     []bg.PlanEntry `json:"plan,omitempty"`
+	Prev     []bg.PlanEntry `json:"prev,omitempty"`
+	HasPrev  bool           `json:"has_prev,omitempty"`
+	Rel      int            `json:"rel"`
+	Ident    bool           `json:"ident,omitempty"`
+	Stay     []string       `json:"stay,omitempty"`
+	Err      bool           `json:"err,omitempty"`
+	Hang     bool           `json:"hang,omitempty"`
+	Chain    string         `json:"chain,omitempty"`
+	Step     int            `json:"step,omitempty"`
+	Log      []string       `json:"log,omitempty"`
+}
 
 type nopLogger struct{}
 
@@ -17,84 +41,270 @@ func (nopLogger) Print(v ...interface{})                 {}
 func (nopLogger) Printf(format string, v ...interface{}) {}
 func (nopLogger) Println(v ...interface{})               {}
 
-func main() {
-	seed := flag.Int64("seed", 1, "seed")
-	n := flag.Int("n", 1000, "chains")
-	flag.Parse()
-	sarama.Logger = nopLogger{}
-	r := rand.New(rand.NewSource(*seed))
-	cnt := map[string]int{}
-	ex := map[string]string{}
-	note := func(k, what string) {
-		cnt[k]++
-		if _, ok := ex[k]; !ok {
-			ex[k] = what
+func planGet(plan []bg.PlanEntry, m, t string) []int32 {
+	for _, e := range plan {
+		if e.Member == m {
+			for _, te := range e.Topics {
+				if te.Topic == t {
+					return te.Parts
+				}
+			}
 		}
 	}
-	for c := 0; c < *n; c++ {
+	return nil
+}
+
+// rangeMonitor: per topic the subscribers, in hash order, hold consecutive slices of the partition list whose sizes are
+// floor(n/m) or ceil(n/m). Skipped for a topic with a hash tie.
+func rangeMonitor(in *bg.Input, plan []bg.PlanEntry) *cf.Monitor {
+	for _, t := range in.Topics {
+		var subs []string
+		for _, m := range in.Members {
+			if in.Subscribes(m.ID, t.Name) {
+				subs = append(subs, m.ID)
+			}
+		}
+		if len(subs) == 0 {
+			continue
+		}
+		sort.SliceStable(subs, func(i, j int) bool { return sarama.VerifBalanceHash(t.Name, subs[i]) < sarama.VerifBalanceHash(t.Name, subs[j]) })
+		tie := false
+		for i := 1; i < len(subs); i++ {
+			if sarama.VerifBalanceHash(t.Name, subs[i]) == sarama.VerifBalanceHash(t.Name, subs[i-1]) {
+				tie = true
+			}
+		}
+		if tie {
+			continue
+		}
+		n, m := len(t.Parts), len(subs)
+		pos := 0
+		for _, id := range subs {
+			got := planGet(plan, id, t.Name)
+			if len(got) < n/m || len(got) > (n+m-1)/m {
+				return &cf.Monitor{Signature: "range:unbalanced-share", What: fmt.Sprintf("topic %s (%d partitions, %d subscribers): %s got %d", t.Name, n, m, id, len(got))}
+			}
+			for k, p := range got {
+				if pos+k >= n || t.Parts[pos+k] != p {
+					return &cf.Monitor{Signature: "range:not-contiguous-in-hash-order", What: fmt.Sprintf("topic %s: %s holds %v, expected the slice starting at position %d", t.Name, id, got, pos)}
+				}
+			}
+			pos += len(got)
+		}
+	}
+	return nil
+}
+
+func allSubscribeAll(in *bg.Input) bool {
+	for _, t := range in.Topics {
+		if len(t.Parts) == 0 {
+			continue
+		}
+		for _, m := range in.Members {
+			if !in.Subscribes(m.ID, t.Name) {
+				return false
+			}
+		}
+	}
+	return true
+}
+
+func rrMonitor(in *bg.Input, plan []bg.PlanEntry) *cf.Monitor {
+	if !allSubscribeAll(in) {
+		return nil
+	}
+	tot := bg.Totals(in, plan)
+	lo, hi := 1<<30, -1
+	for _, v := range tot {
+		if v < lo {
+			lo = v
+		}
+		if v > hi {
+			hi = v
+		}
+	}
+	if hi-lo > 1 {
+		return &cf.Monitor{Signature: "roundrobin:totals-differ-by-more-than-one", What: fmt.Sprintf("identical subscriptions, totals %v", tot)}
+	}
+	return nil
+}
+
+func main() {
+	out := flag.String("out", ".", "output directory")
+	seed := flag.Int64("seed", 1, "seed")
+	n := flag.Int("n", 300, "approximate number of cases per strategy")
+	thorough := flag.Bool("thorough", false, "larger scopes")
+	replay := flag.String("replay", "", "evidence/replay/C13-*.json: re-run exactly that case (range / roundrobin only; sticky steps depend on their chain)")
+	flag.Parse()
+	sarama.Logger = nopLogger{}
+	var only *caseJSON
+	if *replay != "" {
+		b, err := os.ReadFile(*replay)
+		if err != nil {
+			panic(err)
+		}
+		var rp struct {
+			Case *caseJSON `json:"case"`
+		}
+		if json.Unmarshal(b, &rp) == nil && rp.Case != nil && rp.Case.In != nil {
+			only = rp.Case
+		}
+	}
+	r := rand.New(rand.NewSource(*seed))
+	small := bg.SmallScope(3, 2, 4)
+
+	wr := &cf.Writer{Dir: *out, Prefix: "cases13_range", Imports: imports, CaseType: "rcase", MismatchFn: "mismatches13_range", ShardSize: 120}
+	wq := &cf.Writer{Dir: *out, Prefix: "cases13_rr", Imports: imports, CaseType: "rrcase", MismatchFn: "mismatches13_rr", ShardSize: 120}
+	addRange := func(in bg.Input, kind string) {
+		plan, err := sarama.BalanceStrategyRange.Plan(in.MemberMap(), in.TopicMap())
+		if err != nil {
+			panic(err)
+		}
+		cp := bg.Canon(plan)
+		wr.Add(cf.App("Build_rcase", bg.MembersStr(in.Members), bg.TopicsStr(in.Topics), bg.PlanStr(cp)),
+			cf.Sidecar{Case: caseJSON{Strategy: "range", In: &in, Plan: cp}, Kind: "range-" + kind, Nontrivial: in.Nontrivial(), Monitor: rangeMonitor(&in, cp)})
+	}
+	addRR := func(in bg.Input, kind string) {
+		for _, t := range in.Topics {
+			if !in.AnySubscriber(t.Name) {
+				return
+			}
+		}
+		plan, err := sarama.BalanceStrategyRoundRobin.Plan(in.MemberMap(), in.TopicMap())
+		if err != nil {
+			return
+		}
+		cp := bg.Canon(plan)
+		wq.Add(cf.App("Build_rrcase", bg.MembersStr(in.Members), bg.TopicsStr(in.Topics), cf.Some(bg.PlanStr(cp))),
+			cf.Sidecar{Case: caseJSON{Strategy: "roundrobin", In: &in, Plan: cp}, Kind: "roundrobin-" + kind, Nontrivial: in.Nontrivial(), Monitor: rrMonitor(&in, cp)})
+	}
+	if only != nil {
+		switch only.Strategy {
+		case "range":
+			addRange(*only.In, "replay")
+		case "roundrobin":
+			addRR(*only.In, "replay")
+		}
+	} else {
+		ns := *n / 2
+		if *thorough {
+			ns = len(small)
+		}
+		for _, i := range r.Perm(len(small)) {
+			if ns == 0 {
+				break
+			}
+			ns--
+			addRange(small[i], "small")
+			addRR(small[i], "small")
+		}
+		for i := 0; i < *n/2; i++ {
+			nm, nt, np := 1+r.Intn(9), 1+r.Intn(4), r.Intn(40)
+			if i%8 == 0 {
+				nm, nt, np = 1+r.Intn(50), 1+r.Intn(20), r.Intn(200)
+			}
+			addRange(bg.Random(r, nm, nt, np, false), "random")
+			in := bg.Random(r, nm, nt, np, true)
+			if i%2 == 0 { // identical subscriptions: everybody takes every topic
+				all := make([]string, len(in.Topics))
+				for k, t := range in.Topics {
+					all[k] = t.Name
+				}
+				for k := range in.Members {
+					in.Members[k].Topics = append([]string(nil), all...)
+				}
+			}
+			addRR(in, "random")
+		}
+	}
+	wr.Close()
+	wq.Close()
+
+	// ---------------- sticky: honest chains
+	ws := &cf.Writer{Dir: *out, Prefix: "cases13_sticky", Imports: imports, CaseType: "s13case", MismatchFn: "mismatches13_sticky", ShardSize: 40}
+	fx := true // C13's chain statements are about the repaired code; C08 reports a tree without the repair
+	hangs := 0
+	nchains := *n / 4
+	if only != nil {
+		nchains = 0
+	}
+	for c := 0; c < nchains && hangs == 0; c++ {
 		ident := c%2 == 0
-		w := bg.NewWorldIdent(rand.New(rand.NewSource(r.Int63())), 1+r.Intn(5), 1+r.Intn(3), 6, ident)
+		nm, nt, mp := 1+r.Intn(5), 1+r.Intn(3), 6
+		if c%10 == 9 {
+			nm, nt, mp = 4+r.Intn(12), 2+r.Intn(5), 12
+		}
+		w := bg.NewWorldIdent(rand.New(rand.NewSource(r.Int63())), nm, nt, mp, ident)
 		var prevIn *bg.Input
 		var prevPlan []bg.PlanEntry
-		for s := 0; s < 6; s++ {
-			change := ""
+		steps := 3 + r.Intn(4)
+		for s := 0; s < steps; s++ {
+			change := "first"
 			if s > 0 {
 				change = w.MutateKind(ident)
 			}
 			in := w.Input(false)
 			run := bg.RunSticky(in)
-			if run.Hang {
-				note("hang", "")
-				return
+			cj := caseJSON{Strategy: "sticky", In: &run.In, Oracle: &run.Oracle, Plan: run.Plan, Err: run.Err, Hang: run.Hang, Ident: ident,
+				Chain: fmt.Sprintf("honest-%d", c), Step: s, Log: append([]string(nil), w.Log...)}
+			rel := map[string]int{"none": 0, "join": 1, "leave": 2}[change]
+			if change == "other" || change == "first" {
+				rel = 3
 			}
+			cj.Rel = rel
+			var mon *cf.Monitor
+			prevStr := "None"
+			var stay []string
+			if run.Hang {
+				hangs++ // C08's known finding; nothing of C13 can be observed
+			} else if run.RawPlan != nil {
+				if k, what := bg.Validity(&run.In, run.Plan); k != "" {
+					mon = &cf.Monitor{Signature: "sticky:invalid-plan-on-honest-chain:" + k, What: what}
+				} else if b := bg.KafkaBalanced(&run.In, run.Plan); b != "" {
+					mon = &cf.Monitor{Signature: "sticky:not-balanced", What: "sticky plan is not balanced: " + b}
+				}
+				if prevPlan != nil {
+					cj.Prev, cj.HasPrev = prevPlan, true
+					prevStr = cf.Some(bg.PlanStr(prevPlan))
+					now := map[string]bool{}
+					for _, m := range run.In.Members {
+						now[m.ID] = true
+					}
+					among := map[string]bool{}
+					for _, m := range prevIn.Members {
+						if now[m.ID] {
+							among[m.ID] = true
+							stay = append(stay, m.ID)
+						}
+					}
+					cj.Stay = stay
+					if mon == nil {
+						if sw := bg.PairSwap(prevPlan, run.Plan); sw != "" {
+							mon = &cf.Monitor{Signature: "sticky:pair-swap-within-topic", What: sw}
+						} else if rel == 0 && !bg.SamePlanSets(prevPlan, run.Plan) {
+							mon = &cf.Monitor{Signature: "sticky:replan-of-unchanged-group-moved-partitions", What: fmt.Sprint(bg.MovedBetween(prevPlan, run.Plan, among))}
+						} else if ident && rel == 2 {
+							if mv := bg.MovedBetween(prevPlan, run.Plan, among); len(mv) > 0 {
+								mon = &cf.Monitor{Signature: "sticky:leave-moved-partitions-between-remaining-members", What: fmt.Sprint(mv)}
+							}
+						} else if ident && rel == 1 {
+							if mv := bg.MovedBetween(prevPlan, run.Plan, among); len(mv) > 0 {
+								mon = &cf.Monitor{Signature: "sticky:join-shuffled-partitions-between-old-members", What: fmt.Sprint(mv)}
+							}
+						}
+					}
+				}
+			}
+			ws.Add(cf.App("Build_s13case", run.CoqCase(fx), prevStr, cf.Z(int64(rel)), cf.Bool(ident), bg.StrList(stay)),
+				cf.Sidecar{Case: cj, Kind: "sticky-honest-" + change, Nontrivial: in.Nontrivial() && run.RawPlan != nil, Monitor: mon})
 			if run.RawPlan == nil {
 				break
-			}
-			cnt["plans"]++
-			if k, what := bg.Validity(&run.In, run.Plan); k != "" {
-				note("invalid", what)
-			}
-			if b := bg.KafkaBalanced(&run.In, run.Plan); b != "" {
-				note("unbalanced", b)
-				if ident {
-					note("unbalanced-ident", b)
-				}
-			}
-			if prevPlan != nil {
-				if sw := bg.PairSwap(prevPlan, run.Plan); sw != "" {
-					note("pair-swap", sw)
-				}
-				among := map[string]bool{}
-				for _, m := range prevIn.Members {
-					if run.In.Subscribes(m.ID, "") || true {
-						among[m.ID] = true
-					}
-				}
-				switch {
-				case change == "none":
-					cnt["replans"]++
-					if !bg.SamePlanSets(prevPlan, run.Plan) {
-						note("fixed-point-broken", fmt.Sprint(bg.MovedBetween(prevPlan, run.Plan, among)))
-					}
-				case change == "leave" && ident:
-					cnt["leaves"]++
-					if mv := bg.MovedBetween(prevPlan, run.Plan, among); len(mv) > 0 {
-						note("leave-moved", fmt.Sprint(mv))
-					}
-				case change == "join" && ident:
-					cnt["joins"]++
-					if mv := bg.MovedBetween(prevPlan, run.Plan, among); len(mv) > 0 {
-						note("join-shuffled", fmt.Sprint(mv))
-					}
-				}
 			}
 			pi := run.In
 			prevIn, prevPlan = &pi, run.Plan
 			w.Feedback(run.RawPlan)
 		}
 	}
-	fmt.Println(cnt)
-	for k, v := range ex {
-		fmt.Println(k, ":", v)
-	}
+	ws.Close()
+	fmt.Printf("INFO cases range=%d roundrobin=%d sticky=%d hangs=%d\n", wr.Total, wq.Total, ws.Total, hangs)
 }
